@@ -144,9 +144,10 @@ class Result:
 
 class VM:
     def __init__(self):
-        if not os.path.exists(MXVM):
+        exe = os.environ.get("MXVM_BIN", MXVM)
+        if not os.path.exists(exe):
             raise RuntimeError("mxvm not built; run ./setup.sh")
-        self.p = subprocess.Popen([MXVM], stdin=subprocess.PIPE, stdout=subprocess.PIPE,
+        self.p = subprocess.Popen([exe], stdin=subprocess.PIPE, stdout=subprocess.PIPE,
                                   stderr=subprocess.DEVNULL, text=True, bufsize=1)
         self.blk = (0, 0, 0, 0)
         self.ncalls = 0
